@@ -197,7 +197,7 @@ fn fe_sub_relational() {
     assert!(congruent_up(add5(limbs_value(&r.0), limbs_value(&b)), add5(limbs_value(&a), four_p), 8));
     kani::cover!(true);
 }
-// @harness props=C15,C17 kind=full tier=thorough timeout=2400 pairs=neg,negate_mut
+// @harness props=C15,C17 kind=full tier=quick timeout=300 pairs=neg,negate_mut
 #[kani::proof]
 #[kani::unwind(42)]
 fn fe_neg_relational() {
@@ -231,7 +231,7 @@ fn check_mul_small<const S: u32>() {
 #[kani::proof]
 #[kani::unwind(42)]
 fn fe_mul_small_121666() { check_mul_small::<121666>() }
-// @harness props=C12,C15 kind=full tier=thorough timeout=2400 pairs=mul_small
+// @harness props=C12,C15 kind=full tier=quick timeout=400 pairs=mul_small
 #[kani::proof]
 #[kani::unwind(42)]
 fn fe_mul_small_9() { check_mul_small::<9>() }
